@@ -11,12 +11,18 @@ THEOREMS = [
     "Vinegar.C07.oack_names_subset",
     "Vinegar.C07.blksize_spec",
     "Vinegar.C07.timeout_spec",
+    "Vinegar.C07.timeout_echoed",
     "Vinegar.C07.tsize_spec",
     "Vinegar.C07.blockSize_bounds",
+    "Vinegar.C07.clampCfg_bounds",
     "Vinegar.C07.showNat_parseNat",
     "Vinegar.C07.c07Check_runTransfer",
     "Vinegar.C07.uses_negotiated_blocksize",
+    "Vinegar.C07.retransmit_interval",
+    "Vinegar.C07.tsize_value",
     "Vinegar.C07.tsize_eq_transferred",
+    "Vinegar.C01.c01Check_runTransfer",
+    "Vinegar.C02.c02Check_runTransfer",
 ]
 TRUSTED_BASE = T.TRUSTED_BASE
 ASSUMPTIONS = T.ASSUMPTIONS + [
